@@ -3,7 +3,8 @@
 Coverage (property clause -> stream):
   BQM.change_vartype                         bqm_change: float64 / float32 / object storage, in place and not, there-and-back,
                                              raw adjacency (AdjConv) / dict back-end (PyConv) fed to the code-shaped models
-  live .spin / .binary views, reads          view_read: linear / quadratic / offset / get_linear / get_quadratic; copies of the
+  live .spin / .binary views, reads          view_read: linear / quadratic / offset / get_linear / get_quadratic; energies / energy
+                                             through the view on int8 / int64 / float / bool / uint8-64 sample arrays; copies of the
                                              view (copy, deep copy, change_vartype(inplace=False) to either vartype) against
                                              the base and edited afterwards (no shared state)
   ... writes                                 view_write: add/set linear and quadratic, offset, scale, remove_variable (named /
@@ -118,6 +119,8 @@ def gen_case(rng, tier):
         if not c["desc"]["vars"]:
             c["desc"]["vartype"] = rng.choice(['BINARY', 'SPIN'])
         c["inplace"] = rng.random() < 0.5
+        # dtype of the sample array handed to view.energies (unsigned / bool storage cannot hold 2x-1 = -1)
+        c["edtype"] = rng.choice(['int8', 'uint8', 'uint16', 'uint32', 'uint64', 'bool', 'int64', 'float64', 'uint8'])
         labels = [v[0] for v in c["desc"]["vars"]]
         if kind in ('view_write', 'view_same') and labels:
             ops = []
@@ -514,6 +517,26 @@ def run_case(c):
                 if fs(view.get_quadratic(dec_label(u), dec_label(v))) != b:
                     py_fail = "view.quadratic and view.get_quadratic disagree"
             extra = []
+            # energies THROUGH the view, sample array in the generated dtype: the base model's energy at the converted row
+            if labels:
+                edt = np.dtype(c.get("edtype", "int8"))
+                erows = [[x for _, x in smp] for smp in samples_for(5, labels, lambda l: dom(other))]
+                if edt.kind in 'ub' and other == 'SPIN':
+                    erows = [[1 for _ in r] for r in erows[:1]]        # the only spin row unsigned storage can hold
+                arr = np.array(erows, dtype=np.int64).reshape(len(erows), len(labels)).astype(edt)
+                feats["edtype"] = edt.name
+                try:
+                    keep = arr.copy()
+                    ven = view.energies((arr, labels))
+                    if arr.dtype != keep.dtype or not np.array_equal(arr, keep):
+                        py_fail = "view.energies modified the caller's sample array"
+                    rows_c = clist([clist([cpair(cnat(T.idx(l)), cq(F(int(x)))) for l, x in zip(labels, r)]) for r in erows])
+                    extra.append(f"(ViewEn {d} {vars_} {coq_obs(before, T)} {rows_c} {clist([cq(F(e)) for e in ven])})")
+                    one = view.energy((arr[:1], labels))
+                    if F(one) != F(ven[0]):
+                        py_fail = "view.energy and view.energies disagree"
+                except Exception as e:
+                    py_fail = f"view.energies on a {edt.name} sample array raised {type(e).__name__}: {e}"
             # copies of the view are detached models of the VIEW's vartype (VartypeView.__copy__ converts a copy of the
             # base); change_vartype(inplace=False) back to the base's vartype gives the base's own coefficients
             for how in ('copy', 'deepcopy', 'change_back', 'change_same'):
